@@ -235,6 +235,10 @@ struct State {
     /// lock across hook points). Blocked threads are not runnable until they show up again.
     blocked: Vec<bool>,
     ktid: Vec<i32>,
+    /// client threads that have reached wait_turn
+    arrived: usize,
+    /// client threads allowed to exit (set by the main thread, one at a time)
+    released: Vec<bool>,
     /// the thread is inside the scheduler's own park() (waiting for the baton or for the
     /// scheduler mutex): asleep, but not on a lock of the code under test
     in_sched: Vec<bool>,
@@ -251,6 +255,8 @@ struct State {
 pub struct Scheduler {
     m: Mutex<State>,
     cvs: Vec<Condvar>,
+    /// wakes the world's main thread (arrivals, finishes)
+    main_cv: Condvar,
     /// set by a client thread while it is queued on the scheduler's own mutex
     entering: Vec<std::sync::atomic::AtomicBool>,
     pub n: usize,
@@ -277,9 +283,48 @@ fn thread_state(ktid: i32) -> Option<char> {
     if ktid <= 0 {
         return None;
     }
-    let s = std::fs::read_to_string(format!("/proc/self/task/{}/stat", ktid)).ok()?;
-    let i = s.rfind(')')?;
-    s[i + 1..].trim_start().chars().next()
+    // No heap allocation here: this runs on timer ticks of parked threads, i.e. at times the
+    // simulator does not control, and the allocator's address sequence must stay a function
+    // of the schedule (defects keyed on addresses have to replay).
+    extern "C" {
+        fn open(path: *const u8, flags: i32, ...) -> i32;
+        fn read(fd: i32, buf: *mut u8, n: usize) -> isize;
+        fn close(fd: i32) -> i32;
+    }
+    let mut path = [0u8; 48];
+    let prefix = b"/proc/self/task/";
+    path[..prefix.len()].copy_from_slice(prefix);
+    let mut p = prefix.len();
+    let mut digits = [0u8; 12];
+    let mut nd = 0;
+    let mut v = ktid as u32;
+    while v > 0 {
+        digits[nd] = b'0' + (v % 10) as u8;
+        v /= 10;
+        nd += 1;
+    }
+    for i in (0..nd).rev() {
+        path[p] = digits[i];
+        p += 1;
+    }
+    let suffix = b"/stat\0";
+    path[p..p + suffix.len()].copy_from_slice(suffix);
+    let mut buf = [0u8; 256];
+    let n = unsafe {
+        let fd = open(path.as_ptr(), 0 /* O_RDONLY */);
+        if fd < 0 {
+            return None;
+        }
+        let n = read(fd, buf.as_mut_ptr(), buf.len());
+        close(fd);
+        n
+    };
+    if n <= 0 {
+        return None;
+    }
+    let s = &buf[..n as usize];
+    let i = s.iter().rposition(|b| *b == b')')?;
+    s[i + 1..].iter().find(|b| **b != b' ').map(|b| *b as char)
 }
 
 pub struct SchedConfig {
@@ -329,6 +374,8 @@ impl Scheduler {
                 parked_at_hook: vec![false; n],
                 blocked: vec![false; n],
                 ktid: vec![0; n],
+                arrived: 0,
+                released: vec![false; n],
                 in_sched: vec![true; n],
                 harness_wait: vec![false; n],
                 progress: 0,
@@ -340,6 +387,7 @@ impl Scheduler {
                 ev: Fnv::default(),
             }),
             cvs: (0..n).map(|_| Condvar::new()).collect(),
+            main_cv: Condvar::new(),
             entering: (0..n).map(|_| std::sync::atomic::AtomicBool::new(false)).collect(),
             n,
         }
@@ -416,7 +464,56 @@ impl Scheduler {
     pub fn wait_turn(&self, tid: usize) {
         let mut g = self.lock_as(tid);
         g.ktid[tid] = gettid();
+        g.arrived += 1;
+        self.main_cv.notify_all();
         let _g = self.park(tid, g);
+    }
+
+    /// World's main thread: wait until `k` client threads have reached their starting line.
+    /// Clients are spawned one at a time, so that thread start-up (allocations included)
+    /// never overlaps with anything else.
+    pub fn wait_arrived(&self, k: usize) {
+        let mut g = self.lock();
+        while g.arrived < k {
+            g = match self.main_cv.wait_timeout(g, Duration::from_millis(50)) {
+                Ok(x) => x.0,
+                Err(p) => p.into_inner().0,
+            };
+        }
+    }
+
+    /// Client thread, after `finish`: stay parked until the main thread lets this thread go.
+    /// Thread teardown (thread-local destructors, the runtime's per-thread bookkeeping) frees
+    /// memory; it has to happen while nothing else runs, one thread at a time.
+    pub fn wait_release(&self, tid: usize) {
+        let mut g = self.lock();
+        while !g.released[tid] {
+            g = match self.cvs[tid].wait_timeout(g, Duration::from_millis(50)) {
+                Ok(x) => x.0,
+                Err(p) => p.into_inner().0,
+            };
+        }
+    }
+
+    /// World's main thread: let client `tid` exit (to be followed by joining it).
+    pub fn release(&self, tid: usize) {
+        let mut g = self.lock();
+        g.released[tid] = true;
+        drop(g);
+        self.cvs[tid].notify_one();
+    }
+
+    /// World's main thread: wait until every client has finished its script. Only then are
+    /// the threads joined (joining frees per-thread bookkeeping; doing that while a client
+    /// still runs would interleave the allocator's address sequence with real time).
+    pub fn wait_all_done(&self) {
+        let mut g = self.lock();
+        while !g.done.iter().all(|d| *d) {
+            g = match self.main_cv.wait_timeout(g, Duration::from_millis(50)) {
+                Ok(x) => x.0,
+                Err(p) => p.into_inner().0,
+            };
+        }
     }
 
     /// The calling thread is about to block in a wait owned by the harness (pristine oracle
@@ -529,6 +626,7 @@ impl Scheduler {
         } else {
             g.current = NOBODY;
         }
+        self.main_cv.notify_all();
     }
 
     pub fn take_results(&self) -> (Vec<Segment>, SchedStats, u64) {
